@@ -69,8 +69,13 @@ pub fn gen_plan(rng: &mut Rng, rt: &RTree, max_units: usize) -> Plan {
     let mut msg = Vec::new();
     let mut level = 0;
     let mut units = vec![];
+    let mut gave_up = false;
     for u in 0..nunits {
         let (mut g, h, nl) = gen_resolving_unit(rng, rt, level, u == 0);
+        if h == usize::MAX {
+            gave_up = true;
+            break;
+        }
         level = nl;
         // mix of queries and events
         g.query = rng.chance(3, 5);
@@ -93,6 +98,9 @@ pub fn gen_plan(rng: &mut Rng, rt: &RTree, max_units: usize) -> Plan {
             render_data(rng, &data, &mut msg);
         }
         units.push((h, g.query));
+    }
+    while gave_up && matches!(msg.last(), Some(b';') | Some(b' ') | Some(b'\t') | Some(b'\r') | Some(0x0c)) && msg.len() > 1 {
+        msg.pop();
     }
     let ending = *rng.pick(&ENDINGS);
     render_ending(rng, ending, &mut msg);
